@@ -236,6 +236,7 @@ func CheckMain(args []string) int {
 			for _, kf := range findings {
 				if kf.Prop == *prop && kf.Obl == r.O.Name {
 					matched = true
+					nObl-- // a recorded finding is reported separately, not counted as a claimed obligation
 					known = append(known, r.O.Name)
 					fmt.Printf("KNOWN-FINDING: property=%s %s (%s) %s\n", *prop, r.O.Name, r.Status, kf.Text)
 				}
